@@ -2,8 +2,9 @@ import Taskpool.Inv.ControlParse
 /-! C17 — a command does exactly what the method call would do.
 
 `C17_roundtrip`: for every well-formed member table, every public method, every way of writing a call — a value for
-each single positional parameter, any number of values for the var-positional one, any set of options in short or
-long form, before or after the positionals — the parse is the call of that member whose namespace is read out by
+each single positional parameter, any number of values for the var-positional one, any set of options — each as its
+short flag, its long option string or an unambiguous abbreviation of it, the long ones as `--name value` or
+`--name=value` —, before or after the positionals — the parse is the call of that member whose namespace is read out by
 `C17_value_*`: each positional its value, the var-positional all of its values, each written option its value, each
 omitted option the method's own default (`dflt`; `False` for a flag).  `C17_dispatch_exact` splits that namespace
 into `m(*positional, *var_positional, **keyword)`; `C17_reply_rule` is the reply.
@@ -33,24 +34,12 @@ theorem C17_roundtrip (ms : List Member) (hwf : wellFormed ms = true) (m : Membe
   have hok := wf_params hwf hm he
   have hno : ∀ t ∈ renderOpts pre ++ (renderPos pargs ++ (renderPos sargs ++ renderOpts post)), Tok.isOther t = false := by
     intro t ht
-    have hopt : ∀ (cs : List Choice), t ∈ renderOpts cs → Tok.isOther t = false := by
-      intro cs h
-      simp only [renderOpts, List.mem_flatMap] at h
-      obtain ⟨c, _, hc⟩ := h
-      simp only [Choice.render, Choice.tok] at hc
-      cases hsh : c.short <;> simp only [hsh] at hc <;> split at hc <;> simp at hc
-      all_goals (first | (rcases hc with rfl | rfl) | subst hc) <;> rfl
-    have hposn : ∀ (xs : List PosArg), t ∈ renderPos xs → Tok.isOther t = false := by
-      intro xs h
-      simp only [renderPos, List.mem_map] at h
-      obtain ⟨x, _, rfl⟩ := h
-      rfl
     simp only [List.mem_append] at ht
     rcases ht with h | h | h | h
-    · exact hopt _ h
-    · exact hposn _ h
-    · exact hposn _ h
-    · exact hopt _ h
+    · exact (ambiguousTok_renderOpts hok hpre t h).2
+    · exact (ambiguousTok_renderPos (optTable m.params) _ t h).2
+    · exact (ambiguousTok_renderPos (optTable m.params) _ t h).2
+    · exact (ambiguousTok_renderOpts hok hpost t h).2
   have hany : (Tok.word cmd :: (renderOpts pre ++ (renderPos pargs ++ (renderPos sargs ++ renderOpts post)))).any
       Tok.isOther = false := by
     rw [List.any_eq_false]
@@ -108,6 +97,161 @@ theorem C17_value_option_omitted (singles starL : List Param) (pargs sargs : Lis
     exact hout c hc
   constructor <;> intro hk <;> simp [argFor, hk, finalState, this]
 
+/-! ### `--name=value` and abbreviations
+
+`C17_roundtrip` quantifies over `Choice`s, and a choice may write its option as the short flag, as the full long
+option string, as an unambiguous abbreviation of it (`abbr`), and — the long forms of an option with a value — with
+the value behind a blank or behind `=` (`eq`).  The namespace it ends in (`finalState`) does not mention the form:
+`C17_form_irrelevant`.  `C17_roundtrip_eq_form` and `C17_roundtrip_abbrev` spell the two new forms out, token by
+token, with the namespace of the plain long form as their conclusion. -/
+
+/-- the option as written in full, with its value behind a blank -/
+def plainChoice (p : Param) (w : Word) (a : Atom) : Choice := { p := p, short := none, w := w, a := a }
+
+/-- the namespace depends on which options were written with which values, not on how they were written -/
+theorem C17_form_irrelevant (singles starL : List Param) (pargs sargs : List PosArg) (cs cs' : List Choice)
+    (h : cs.map (fun c => (c.p, c.a)) = cs'.map (fun c => (c.p, c.a))) :
+    finalState singles starL pargs sargs cs = finalState singles starL pargs sargs cs' := by
+  have hg : ∀ l : List Choice, l.map (fun c => (c.p.name, c.val))
+      = (l.map (fun c => (c.p, c.a))).map (fun x => (x.1.name, if x.1.kind = .flag then ArgVal.flag true else .one x.2)) := by
+    intro l
+    simp [List.map_map, Function.comp_def, Choice.val]
+  simp only [finalState, optEntries, hg, h]
+
+/-- one option behind the positionals, in whatever form -/
+theorem roundtrip_one (ms : List Member) (hwf : wellFormed ms = true) (m : Member) (hm : m ∈ ms)
+    (he : m.exposed = true) (hfun : m.kind = .function)
+    (singles starL : List Param) (hpos : m.params.filter Param.isPos = singles ++ starL)
+    (hsing : ∀ p ∈ singles, p.kind = .positional)
+    (hstar : starL = [] ∨ ∃ sp, starL = [sp] ∧ sp.kind = .varPositional)
+    (cmd : Word) (hcmd : cmd.text = dash m.name)
+    (pargs sargs : List PosArg) (hp : posOk singles pargs) (hs : ∀ x ∈ sargs, ∃ sp ∈ starL, x.ok sp)
+    (c : Choice) (hc : c.ok m.params) :
+    parseLine (commandTable ms) (.word cmd :: (renderPos pargs ++ (renderPos sargs ++ c.render)))
+      = some (.act (.call m.name
+          (m.params.map fun q => (q.name, argFor (finalState singles starL pargs sargs [plainChoice c.p c.w c.a]) q)))) := by
+  have := C17_roundtrip ms hwf m hm he hfun singles starL hpos hsing hstar cmd hcmd pargs sargs hp hs [] [c]
+    (by simp) (by simpa using hc)
+  simp only [renderOpts, List.flatMap_nil, List.nil_append, List.flatMap_cons, List.append_nil] at this
+  rw [this, C17_form_irrelevant singles starL pargs sargs [c] [plainChoice c.p c.w c.a] (by simp [plainChoice])]
+
+/-- `--name=value` (one string, split at the first `=`; the value may be empty, may start with `-`, may contain `=`)
+binds the option exactly as `--name value` does: the parse is the same call, the option's entry is the value -/
+theorem C17_roundtrip_eq_form (ms : List Member) (hwf : wellFormed ms = true) (m : Member) (hm : m ∈ ms)
+    (he : m.exposed = true) (hfun : m.kind = .function)
+    (singles starL : List Param) (hpos : m.params.filter Param.isPos = singles ++ starL)
+    (hsing : ∀ p ∈ singles, p.kind = .positional)
+    (hstar : starL = [] ∨ ∃ sp, starL = [sp] ∧ sp.kind = .varPositional)
+    (cmd : Word) (hcmd : cmd.text = dash m.name)
+    (pargs sargs : List PosArg) (hp : posOk singles pargs) (hs : ∀ x ∈ sargs, ∃ sp ∈ starL, x.ok sp)
+    (p : Param) (hpm : p ∈ m.params) (hk : p.kind = .optional) (w : Word) (a : Atom)
+    (hconv : convert p.conv w = some a) (hdd : w.text ≠ dashdash) :
+    parseLine (commandTable ms) (.word cmd :: (renderPos pargs ++ (renderPos sargs ++ [.eq (dash p.name) w])))
+      = some (.act (.call m.name
+          (m.params.map fun q => (q.name, argFor (finalState singles starL pargs sargs [plainChoice p w a]) q))))
+    ∧ parseLine (commandTable ms) (.word cmd :: (renderPos pargs ++ (renderPos sargs ++ [.eq (dash p.name) w])))
+      = parseLine (commandTable ms) (.word cmd :: (renderPos pargs ++ (renderPos sargs ++ [.long (dash p.name), .word w])))
+    ∧ argFor (finalState singles starL pargs sargs [plainChoice p w a]) p = .one a := by
+  have hopt : p.isOpt = true := by simp [Param.isOpt, hk]
+  have hkf : p.kind ≠ .flag := by simp [hk]
+  have h1 := roundtrip_one ms hwf m hm he hfun singles starL hpos hsing hstar cmd hcmd pargs sargs hp hs
+    { p := p, short := none, w := w, a := a, eq := true }
+    ⟨hpm, hopt, by simp, fun _ => hconv, by simp, fun _ => hdd⟩
+  have h2 := roundtrip_one ms hwf m hm he hfun singles starL hpos hsing hstar cmd hcmd pargs sargs hp hs
+    (plainChoice p w a) ⟨hpm, hopt, by simp [plainChoice], fun _ => hconv, by simp [plainChoice], by simp [plainChoice]⟩
+  have hr1 : ({ p := p, short := none, w := w, a := a, eq := true } : Choice).render = [.eq (dash p.name) w] := by
+    simp [Choice.render, Choice.longName, hkf]
+  have hr2 : (plainChoice p w a).render = [.long (dash p.name), .word w] := by
+    simp [Choice.render, Choice.longName, plainChoice, hkf]
+  rw [hr1] at h1
+  rw [hr2] at h2
+  refine ⟨h1, h1.trans h2.symm, ?_⟩
+  have := C17_value_option_given singles starL pargs sargs [plainChoice p w a] (by simp) (plainChoice p w a) (by simp)
+    (by simpa [plainChoice] using hopt)
+  simpa [plainChoice, Choice.val, hkf] using this
+
+/-- an unambiguous abbreviation `--n` of an option's long string (a non-empty prefix of it and of no other long option
+string of the command, `--help` included) is that option: with the value behind a blank, with the value behind `=`,
+and — a flag — alone.  The parse is the call the full form gives. -/
+theorem C17_roundtrip_abbrev (ms : List Member) (hwf : wellFormed ms = true) (m : Member) (hm : m ∈ ms)
+    (he : m.exposed = true) (hfun : m.kind = .function)
+    (singles starL : List Param) (hpos : m.params.filter Param.isPos = singles ++ starL)
+    (hsing : ∀ p ∈ singles, p.kind = .positional)
+    (hstar : starL = [] ∨ ∃ sp, starL = [sp] ∧ sp.kind = .varPositional)
+    (cmd : Word) (hcmd : cmd.text = dash m.name)
+    (pargs sargs : List PosArg) (hp : posOk singles pargs) (hs : ∀ x ∈ sargs, ∃ sp ∈ starL, x.ok sp)
+    (p : Param) (hpm : p ∈ m.params) (hopt : p.isOpt = true) (n : Str)
+    (hab : abbrevOk (optTable m.params) n (dash p.name)) (w : Word) (a : Atom) :
+    let call := some (Verdict.act (.call m.name
+          (m.params.map fun q => (q.name, argFor (finalState singles starL pargs sargs [plainChoice p w a]) q))))
+    (p.kind = .optional → convert p.conv w = some a →
+      parseLine (commandTable ms) (.word cmd :: (renderPos pargs ++ (renderPos sargs ++ [.long n, .word w]))) = call
+      ∧ (w.text ≠ dashdash →
+          parseLine (commandTable ms) (.word cmd :: (renderPos pargs ++ (renderPos sargs ++ [.eq n w]))) = call)
+      ∧ argFor (finalState singles starL pargs sargs [plainChoice p w a]) p = .one a)
+    ∧ (p.kind = .flag →
+      parseLine (commandTable ms) (.word cmd :: (renderPos pargs ++ (renderPos sargs ++ [.long n]))) = call
+      ∧ argFor (finalState singles starL pargs sargs [plainChoice p w a]) p = .flag true) := by
+  intro call
+  have hval := C17_value_option_given singles starL pargs sargs [plainChoice p w a] (by simp) (plainChoice p w a) (by simp)
+    (by simpa [plainChoice] using hopt)
+  constructor
+  · intro hk hconv
+    have hkf : p.kind ≠ .flag := by simp [hk]
+    have h1 := roundtrip_one ms hwf m hm he hfun singles starL hpos hsing hstar cmd hcmd pargs sargs hp hs
+      { p := p, short := none, w := w, a := a, abbr := some n }
+      ⟨hpm, hopt, by simp, fun _ => hconv, by simpa using hab, by simp⟩
+    have hr1 : ({ p := p, short := none, w := w, a := a, abbr := some n } : Choice).render = [.long n, .word w] := by
+      simp [Choice.render, Choice.longName, hkf]
+    rw [hr1] at h1
+    refine ⟨h1, ?_, by simpa [plainChoice, Choice.val, hkf] using hval⟩
+    intro hdd
+    have h2 := roundtrip_one ms hwf m hm he hfun singles starL hpos hsing hstar cmd hcmd pargs sargs hp hs
+      { p := p, short := none, w := w, a := a, abbr := some n, eq := true }
+      ⟨hpm, hopt, by simp, fun _ => hconv, by simpa using hab, fun _ => hdd⟩
+    have hr2 : ({ p := p, short := none, w := w, a := a, abbr := some n, eq := true } : Choice).render = [.eq n w] := by
+      simp [Choice.render, Choice.longName, hkf]
+    rw [hr2] at h2
+    exact h2
+  · intro hk
+    have h1 := roundtrip_one ms hwf m hm he hfun singles starL hpos hsing hstar cmd hcmd pargs sargs hp hs
+      { p := p, short := none, w := w, a := a, abbr := some n }
+      ⟨hpm, hopt, by simp, fun h => absurd hk h, by simpa using hab, by simp⟩
+    have hr1 : ({ p := p, short := none, w := w, a := a, abbr := some n } : Choice).render = [.long n] := by
+      simp [Choice.render, Choice.tok, Choice.longName, hk]
+    rw [hr1] at h1
+    exact ⟨h1, by simpa [plainChoice, Choice.val, hk] using hval⟩
+
+/-- an exact option string wins over being the prefix of another one (`--n` with both `--n` and `--num` present) -/
+theorem C17_exact_wins (ps : List Param) (hok : paramsOk ps = true) (o : OptSpec) (ho : o ∈ optTable ps) :
+    resolveLong (optTable ps) o.long = .one o :=
+  resolveLong_exact (optsOk_optTable hok) ho
+
+/-- the prefix of two or more long option strings that is equal to none of them — anywhere behind the command word,
+in either form — makes the whole line an error, whatever else it contains (a help request included) -/
+theorem C17_ambiguous_rejected (c : Cmd) (toks : List Tok)
+    (h : toks.any (ambiguousTok (optTable c.member.params)) = true) : parseCmd c toks = some (.error .ambiguous) := by
+  simp [parseCmd, h]
+
+/-- `--flag=value` and `--help=value`: an option that takes no value refuses one (`ignored explicit argument`), also
+when the value is empty; nothing behind it is looked at -/
+theorem C17_explicit_value_refused (me : Str) (tbl : List OptSpec) (n : Str) (v : Word) (rest : List Tok) (st : PState)
+    (o : OptSpec) (hres : resolveLong tbl n = .one o) (hno : o.param = none ∨ ∃ p, o.param = some p ∧ p.kind = .flag) :
+    scanOpts me tbl (.eq n v :: rest) st = .stop (some (.error .explicitArg)) := by
+  rcases hno with h | ⟨p, h, hk⟩
+  · simp [scanOpts, hres, h]
+  · simp [scanOpts, hres, h, hk]
+
+/-- a long option string that is neither an option of the command nor a prefix of one is left over, like an unknown
+short flag: the scan goes on, and the line is answered `unrecognized arguments` if nothing else is wrong with it -/
+theorem C17_unknown_long_left_over (me : Str) (tbl : List OptSpec) (n : Str) (hn : n ≠ []) (v : Word) (rest : List Tok)
+    (st : PState) (hres : resolveLong tbl n = .unknown) :
+    scanOpts me tbl (.long n :: rest) st = scanOpts me tbl rest { st with extras := true }
+    ∧ scanOpts me tbl (.eq n v :: rest) st = scanOpts me tbl rest { st with extras := true } := by
+  constructor
+  · rw [scanOpts_long_cons hn, hres]
+  · simp [scanOpts, hres]
+
 /-- no two options of a command share a short flag -/
 theorem C17_flags_unique (ps : List Param) (used : List Char) :
     ((assignFlags ps used).filterMap (·.2)).Nodup ∧ ∀ f ∈ (assignFlags ps used).filterMap (·.2), f ∉ used :=
@@ -156,5 +300,57 @@ example : dispatch e17Say.params [(['x'], .one (.int 4)), (['m'], .many [.int 5,
 example : parseLine (commandTable [e17Say]) [.word e17CmdWord, .word (e17Num ['4'] 4)]
     = some (.act (.call e17Say.name [(['x'], .one (.int 4)), (['m'], .many []), (['h', 'o', 'w'], .dflt), (['l'], .flag false)])) := by
   decide +kernel
+
+/-! non-vacuity of the `=` form and of abbreviations: `tune(speed=1, size=2, strict=False, n=0, num=0, hint="")` -/
+
+def e17Opt (n : Str) (c : Conv) : Param := { name := n, kind := .optional, pass := .byPosition, conv := c }
+def e17Speed : Param := e17Opt ['s', 'p', 'e', 'e', 'd'] .int
+def e17Size : Param := e17Opt ['s', 'i', 'z', 'e'] .int
+def e17Strict : Param := { name := ['s', 't', 'r', 'i', 'c', 't'], kind := .flag, pass := .byPosition, conv := .str }
+def e17N : Param := e17Opt ['n'] .int
+def e17Nu : Param := e17Opt ['n', 'u', 'm'] .int
+def e17Hint : Param := e17Opt ['h', 'i', 'n', 't'] .str
+def e17Tune : Member :=
+  { name := ['t', 'u', 'n', 'e'], kind := .function, params := [e17Speed, e17Size, e17Strict, e17N, e17Nu, e17Hint] }
+def e17TuneWord : Word := { text := ['t', 'u', 'n', 'e'], int? := none, floatOk := false, litOk := false, dotOk := false }
+def e17Text (t : Str) : Word := { text := t, int? := none, floatOk := false, litOk := false, dotOk := false }
+def e17T : Table := commandTable [e17Tune]
+
+example : wellFormed [e17Tune] = true := by decide +kernel
+-- `--sp` abbreviates `--speed` and nothing else; `--s` does not
+example : abbrevOk (optTable e17Tune.params) ['s', 'p'] (dash e17Speed.name) := by unfold abbrevOk; decide +kernel
+example : ¬ abbrevOk (optTable e17Tune.params) ['s'] (dash e17Speed.name) := by unfold abbrevOk; decide +kernel
+-- `tune --sp=1 --str --hi=`: abbreviations, `=` form, an empty string value
+example : parseLine e17T [.word e17TuneWord, .eq ['s', 'p'] (e17Num ['1'] 1), .long ['s', 't', 'r'], .eq ['h', 'i'] (e17Text [])]
+    = some (.act (.call e17Tune.name [(e17Speed.name, .one (.int 1)), (e17Size.name, .dflt), (e17Strict.name, .flag true),
+        (e17N.name, .dflt), (e17Nu.name, .dflt), (e17Hint.name, .one (.str []))])) := by decide +kernel
+-- the same call written in full
+example : parseLine e17T [.word e17TuneWord, .eq ['s', 'p'] (e17Num ['1'] 1), .long ['s', 't', 'r'], .eq ['h', 'i'] (e17Text [])]
+    = parseLine e17T [.word e17TuneWord, .long e17Speed.name, .word (e17Num ['1'] 1), .long e17Strict.name,
+        .long e17Hint.name, .word (e17Text [])] := by decide +kernel
+-- `--n 3`: an exact option string although a prefix of `--num`; `--nu=2` is `--num`
+example : parseLine e17T [.word e17TuneWord, .long ['n'], .word (e17Num ['3'] 3), .eq ['n', 'u'] (e17Num ['2'] 2)]
+    = some (.act (.call e17Tune.name [(e17Speed.name, .dflt), (e17Size.name, .dflt), (e17Strict.name, .flag false),
+        (e17N.name, .one (.int 3)), (e17Nu.name, .one (.int 2)), (e17Hint.name, .dflt)])) := by decide +kernel
+-- `--s=1`, `--s`: speed, size or strict; also behind a help request, also in front of a bad value
+example : parseLine e17T [.word e17TuneWord, .eq ['s'] (e17Num ['1'] 1)] = some (.error .ambiguous) := by decide +kernel
+example : parseLine e17T [.word e17TuneWord, .short 'h', .long ['s']] = some (.error .ambiguous) := by decide +kernel
+example : parseLine e17T [.word e17TuneWord, .eq e17Size.name (e17Text ['x']), .long ['s']] = some (.error .ambiguous) := by
+  decide +kernel
+-- `--strict=1`, `--str=`, `--help=1`, top-level `--hel=x`: no value wanted
+example : parseLine e17T [.word e17TuneWord, .eq e17Strict.name (e17Num ['1'] 1)] = some (.error .explicitArg) := by decide +kernel
+example : parseLine e17T [.word e17TuneWord, .eq ['s', 't', 'r'] (e17Text [])] = some (.error .explicitArg) := by decide +kernel
+example : parseLine e17T [.word e17TuneWord, .eq helpName (e17Num ['1'] 1)] = some (.error .explicitArg) := by decide +kernel
+example : parseLine e17T [.eq ['h', 'e', 'l'] (e17Text ['x'])] = some (.error .explicitArg) := by decide +kernel
+-- `--he`: only `--help` starts like that (`--hint` does not); `--h` is ambiguous
+example : parseLine e17T [.word e17TuneWord, .long ['h', 'e']] = some (.help (some e17Tune.name)) := by decide +kernel
+example : parseLine e17T [.word e17TuneWord, .long ['h']] = some (.error .ambiguous) := by decide +kernel
+-- `--speed=` (an empty string is no int), `--speed=x`
+example : parseLine e17T [.word e17TuneWord, .eq e17Speed.name (e17Text [])] = some (.error .badValue) := by decide +kernel
+-- `--zz=1`, `--zz`: no option starts like that — left over
+example : parseLine e17T [.word e17TuneWord, .eq ['z', 'z'] (e17Num ['1'] 1)] = some (.error .unrecognized) := by decide +kernel
+example : parseLine e17T [.word e17TuneWord, .long ['z', 'z']] = some (.error .unrecognized) := by decide +kernel
+-- `--hint=--`: outside the fragment (argparse stores an empty list)
+example : parseLine e17T [.word e17TuneWord, .eq e17Hint.name (e17Text dashdash)] = none := by decide +kernel
 
 end Taskpool.Control
